@@ -27,8 +27,11 @@ type Gen struct {
 	// Unmapped counts fields that could not be matched to the schema.
 	Unmapped      int
 	UnmappedNames map[string]int
-	// Tag, when non-empty, is embedded in generated strings (C20).
-	Tag string
+	// Tag, when non-empty, is the value of every generated string (C20);
+	// TagInt, when HasTagInt, the value of every generated integer.
+	Tag       string
+	TagInt    int64
+	HasTagInt bool
 }
 
 var timeType = reflect.TypeOf(time.Time{})
@@ -204,9 +207,17 @@ func (g *Gen) fill(v reflect.Value, s oas.M, depth int) {
 	case reflect.Bool:
 		v.SetBool(g.Rng.Intn(2) == 0)
 	case reflect.Int, reflect.Int64:
-		v.SetInt(g.int64v(64))
+		if g.HasTagInt {
+			v.SetInt(g.TagInt)
+		} else {
+			v.SetInt(g.int64v(64))
+		}
 	case reflect.Int32:
-		v.SetInt(g.int64v(32))
+		if g.HasTagInt {
+			v.SetInt(g.TagInt % (1 << 30))
+		} else {
+			v.SetInt(g.int64v(32))
+		}
 	case reflect.Float64:
 		v.SetFloat(g.float(64))
 	case reflect.Float32:
